@@ -24,6 +24,7 @@ RULE = (
     "node-sharing closure, edge/node membership by definition, ranks in original order, monotonicity.  "
     "Non-trivial: geometries that touch without overlapping, buffer >= 2, datasets with > 10 cells, "
     "arrays with a marked cell on the border."
+    ' Also: meshes supplying face_face or all tables, one-based tables with fill value 0, a mesh with nodes that belong to no face.'
 )
 LEVEL_TEXT = ("all boolean arrays up to 4x4 for the ring-growing / edge-node-marking primitives, all face subsets of the "
               "library meshes for buffer_faces / mask_from_face_indexes, and 13 dataset-derived clip geometries x "
